@@ -400,6 +400,30 @@ impl<R: Read> Reader<R> {
         })
     }
 
+    /// Index (into the header's file list) of the file this archive entry holds: stripped entries
+    /// carry it explicitly, ordinary entries are matched by their name ("./usr/bin/foo" is the
+    /// file "/usr/bin/foo"). The archive may omit files (%ghost) or order them differently.
+    pub fn file_index(&self, file_entries: &[FileEntry]) -> Option<usize> {
+        match &self.entry {
+            RpmPayloadEntry::Stripped(idx) => {
+                Some(*idx as usize).filter(|idx| *idx < file_entries.len())
+            }
+            RpmPayloadEntry::Cpio(c) => {
+                // "./usr/bin/foo", "/usr/bin/foo" and "usr/bin/foo" all name the same file; source
+                // packages use bare names in both places
+                fn relative(path: &str) -> &str {
+                    path.strip_prefix("./")
+                        .unwrap_or(path)
+                        .trim_start_matches('/')
+                }
+                let name = relative(c.name());
+                file_entries
+                    .iter()
+                    .position(|entry| entry.path.to_str().map(relative) == Some(name))
+            }
+        }
+    }
+
     /// Returns the metadata for this entry.
     pub fn is_trailer(&self) -> bool {
         match &self.entry {
